@@ -8,11 +8,96 @@ import Mathlib.NumberTheory.LegendreSymbol.QuadraticReciprocity
 -/
 namespace Tmcg.TmcgOpen
 open Tmcg Tmcg.TmcgCard
+open NumberTheorySymbols
+
+theorem jacobiGo_spec : ∀ (f a n : Nat) (acc : Int), n % 2 = 1 → a < n → a * n < 2 ^ f →
+    jacobiGo (f + 1) a n acc = acc * jacobiSym a n := by
+  intro f
+  induction f with
+  | zero =>
+    intro a n acc hn han hf
+    have ha : a = 0 := by
+      rcases Nat.eq_zero_or_pos a with h | h
+      · exact h
+      · have : 1 ≤ a * n := Nat.mul_pos h (by omega)
+        omega
+    subst ha
+    unfold jacobiGo
+    simp only [if_true]
+    by_cases h1 : n = 1
+    · subst h1; simp
+    · have : 1 < n := by omega
+      simp [h1, jacobiSym.zero_left this]
+  | succ f ih =>
+    intro a n acc hn han hf
+    unfold jacobiGo
+    by_cases ha : a = 0
+    · subst ha
+      simp only [if_true]
+      by_cases h1 : n = 1
+      · subst h1; simp
+      · have : 1 < n := by omega
+        simp [h1, jacobiSym.zero_left this]
+    · simp only [ha, if_false]
+      by_cases he : a % 2 = 0
+      · simp only [he, if_true]
+        have hlt : a / 2 < n := by omega
+        have hfuel : a / 2 * n < 2 ^ f := by
+          have h2 : a = 2 * (a / 2) := by omega
+          rw [h2, pow_succ] at hf
+          nlinarith
+        rw [ih _ _ _ hn hlt hfuel]
+        have h2 : (a : Int) = 2 * ((a / 2 : Nat) : Int) := by omega
+        conv_rhs => rw [h2, jacobiSym.mul_left, jacobiSym.at_two (Nat.odd_iff.mpr hn),
+          ZMod.χ₈_nat_eq_if_mod_eight]
+        have : n % 2 ≠ 0 := by omega
+        simp only [this, if_false]
+        have h8 : n % 8 = 1 ∨ n % 8 = 3 ∨ n % 8 = 5 ∨ n % 8 = 7 := by omega
+        rcases h8 with h | h | h | h <;> simp [h]
+      · simp only [he, if_false]
+        have ho : a % 2 = 1 := by omega
+        have hapos : 0 < a := by omega
+        have hlt : n % a < a := Nat.mod_lt _ hapos
+        have hfuel : n % a * a < 2 ^ f := by
+          have h1 : n = a * (n / a) + n % a := (Nat.div_add_mod n a).symm
+          have h2 : 1 ≤ n / a := Nat.div_pos (le_of_lt han) hapos
+          have h3 : 2 * (n % a) < n := by nlinarith
+          rw [pow_succ] at hf
+          nlinarith
+        rw [ih _ _ _ ho hlt hfuel, ← jacobiSym.quadratic_reciprocity_if ho hn]
+        have hm : J(((n % a : Nat) : Int) | a) = J((n : Int) | a) := by
+          rw [jacobiSym.mod_left (n : Int) a]; norm_cast
+        rw [hm]
+        by_cases h3 : a % 4 = 3 ∧ n % 4 = 3
+        · simp [h3]
+        · simp [h3]
+
+theorem lt_two_pow_bitlen (x : Nat) : x < 2 ^ bitlen (x : Int) := by
+  unfold bitlen
+  simp only [Int.natAbs_natCast]
+  by_cases h : x = 0
+  · subst h; simp
+  · simp only [h, if_false]; exact Nat.lt_log2_self
 
 /-- the executable binary Jacobi algorithm of the model computes the Jacobi symbol -/
 theorem jacobi_eq_jacobiSym (a : Int) (n : Nat) (hn : n % 2 = 1) :
     jacobi a n = jacobiSym a n := by
-  sorry
+  unfold jacobi
+  have hnpos : (0 : Int) < n := by omega
+  have hnn : 0 ≤ a % (n : Int) := Int.emod_nonneg _ (by omega)
+  have hlt : a % (n : Int) < n := Int.emod_lt_of_pos _ hnpos
+  have hcast : (((a % (n : Int)).toNat : Nat) : Int) = a % n := Int.toNat_of_nonneg hnn
+  have han : (a % (n : Int)).toNat < n := by omega
+  simp only []
+  generalize (a % (n : Int)).toNat = a' at *
+  have hfuel : a' * n < 2 ^ (2 * (bitlen a' + bitlen n) + 3) := by
+    have h1 := lt_two_pow_bitlen a'
+    have h2 := lt_two_pow_bitlen n
+    calc a' * n < 2 ^ bitlen a' * 2 ^ bitlen n := Nat.mul_lt_mul'' h1 h2
+      _ = 2 ^ (bitlen a' + bitlen n) := (pow_add _ _ _).symm
+      _ ≤ _ := Nat.pow_le_pow_right (by norm_num) (by omega)
+  rw [show 2 * (bitlen (a' : Int) + bitlen (n : Int)) + 4 = (2 * (bitlen a' + bitlen n) + 3) + 1 from rfl,
+    jacobiGo_spec _ _ _ _ hn han hfuel, one_mul, hcast, ← jacobiSym.mod_left]
 
 /-- a well-formed key: `m = p·q` with distinct odd primes, `y` a non-residue modulo both
     (so `(y/m) = +1` but `y` is not a square: the encoding of a 1-bit) -/
@@ -38,16 +123,151 @@ structure SecretOk (keys : List SecKey) (w : Nat) (cs : CardSecret) : Prop where
     ∀ r ∈ row, Int.gcd r keys[i].pub.m = 1
   col_xor : ∀ j, j < w → xorBits (cs.b.map fun row => lowBit (row.getD j 0)) = false
 
+/-! ### XOR of bit lists -/
+
+theorem xorBits_nil : xorBits [] = false := rfl
+
+theorem xorBits_append_singleton (l : List Bool) (x : Bool) :
+    xorBits (l ++ [x]) = (xorBits l != x) := by
+  simp [xorBits, List.foldl_append]
+
+theorem xorBits_map_range_succ (g : Nat → Bool) (n : Nat) :
+    xorBits ((List.range (n + 1)).map g) = (xorBits ((List.range n).map g) != g n) := by
+  rw [List.range_succ, List.map_append, List.map_singleton, xorBits_append_singleton]
+
+/-- XOR of a pointwise XOR -/
+theorem xorBits_map_xor (g h : Nat → Bool) (n : Nat) :
+    xorBits ((List.range n).map fun k => (g k != h k)) =
+      (xorBits ((List.range n).map g) != xorBits ((List.range n).map h)) := by
+  induction n with
+  | zero => simp [xorBits]
+  | succ n ih =>
+    rw [xorBits_map_range_succ, xorBits_map_range_succ, xorBits_map_range_succ, ih]
+    cases xorBits ((List.range n).map g) <;> cases xorBits ((List.range n).map h) <;>
+      cases g n <;> cases h n <;> rfl
+
+theorem xorBits_map_single (i : Nat) (c : Bool) (n : Nat) :
+    xorBits ((List.range n).map fun k => if k = i then c else false) =
+      (if i < n then c else false) := by
+  induction n with
+  | zero => simp [xorBits]
+  | succ n ih =>
+    rw [xorBits_map_range_succ, ih]
+    by_cases h1 : i < n
+    · have : n ≠ i := by omega
+      have h2 : i < n + 1 := by omega
+      simp [h1, h2, this]
+    · by_cases h2 : n = i
+      · subst h2; simp
+      · have h3 : ¬ i < n + 1 := by omega
+        simp [h1, h2, h3]
+
+theorem foldl_xor_init (a : Bool) (l : List Bool) :
+    l.foldl (fun a b => a != b) a = (a != l.foldl (fun a b => a != b) false) := by
+  induction l generalizing a with
+  | nil => simp
+  | cons x l ih =>
+    simp only [List.foldl_cons]
+    rw [ih (a != x), ih (false != x)]
+    cases a <;> cases x <;> simp
+
+theorem xorBits_cons (x : Bool) (l : List Bool) : xorBits (x :: l) = (x != xorBits l) := by
+  simp only [xorBits, List.foldl_cons]
+  rw [foldl_xor_init]; simp
+
+theorem xorBits_false_cons (l : List Bool) : xorBits (false :: l) = xorBits l := by
+  simp [xorBits]
+
+theorem xorBits_filterMap_skip (f : Nat → Bool) (i : Nat) (l : List Nat) :
+    xorBits (l.filterMap fun k => if k = i then none else some (f k)) =
+      xorBits (l.map fun k => if k = i then false else f k) := by
+  induction l with
+  | nil => rfl
+  | cons a l ih =>
+    by_cases h : a = i
+    · simp only [List.filterMap_cons, h, if_true, List.map_cons, xorBits_false_cons]
+      simpa using ih
+    · simp only [List.filterMap_cons, h, if_false, List.map_cons]
+      rw [xorBits_cons, xorBits_cons, ih]
+
+
+theorem getD_map_range {α : Type} (g : Nat → α) (w j : Nat) (d : α) (hj : j < w) :
+    ((List.range w).map g).getD j d = g j := by
+  simp [List.getD, hj]
+
+theorem lowBit_ite (c : Bool) : lowBit (if c then (1 : Int) else 0) = c := by
+  cases c <;> simp [lowBit]
+
 /-- what `TMCG_CreateCardSecret` produces: whatever bits were drawn for the other rows, after the
     fix-up of row `index` every column XORs to zero -/
 theorem fixupB_col_xor (b : Matrix) (index w : Nat) (hi : index < b.length)
     (hcols : ∀ row ∈ b, row.length = w) (j : Nat) (hj : j < w) :
     xorBits ((fixupB b index w).map fun row => lowBit (row.getD j 0)) = false := by
-  sorry
+  have _ := hcols
+  unfold fixupB
+  simp only [List.map_map]
+  set f : Nat → Bool := fun k => lowBit ((b.getD k []).getD j 0) with hf
+  set c : Bool := xorBits ((List.range b.length).filterMap fun k =>
+      if k = index then none else some (f k)) with hc
+  have hfun : ((fun row : List Int => lowBit (row.getD j 0)) ∘ fun k =>
+        if k = index then (List.range w).map (fun j => if
+          xorBits ((List.range b.length).filterMap fun k =>
+            if k = index then none else some (lowBit ((b.getD k []).getD j 0))) then (1 : Int) else 0)
+        else b.getD k []) =
+      fun k => ((if k = index then false else f k) != (if k = index then c else false)) := by
+    funext k
+    by_cases hk : k = index
+    · simp only [Function.comp, hk, if_true]
+      rw [getD_map_range _ _ _ _ hj, lowBit_ite]
+      simp [hc, hf]
+    · simp [Function.comp, hk, hf]
+  rw [hfun, xorBits_map_xor, xorBits_map_single, if_pos hi, hc, xorBits_filterMap_skip]
+  simp
 
 theorem fixupB_shape (b : Matrix) (index w : Nat) (hcols : ∀ row ∈ b, row.length = w) :
     (fixupB b index w).length = b.length ∧ ∀ row ∈ fixupB b index w, row.length = w := by
-  sorry
+  unfold fixupB
+  refine ⟨by simp, ?_⟩
+  intro row hrow
+  simp only [List.mem_map, List.mem_range] at hrow
+  obtain ⟨k, hk, rfl⟩ := hrow
+  by_cases h : k = index
+  · simp [h]
+  · simp only [h, if_false]
+    apply hcols
+    simp [List.getD, hk]
+
+/-- Jacobi symbol of a masked value modulo a prime factor `P` of the modulus -/
+theorem jacobiSym_maskValue (key : PubKey) (P : Nat) (hP : (P : Int) ∣ key.m) (z r b : Int)
+    (hr : Int.gcd r P = 1) :
+    J(maskValue key z r b | P) = J(z | P) * (if lowBit b then J(key.y | P) else 1) := by
+  have red : ∀ x : Int, J(x % key.m | P) = J(x | P) := by
+    intro x
+    rw [jacobiSym.mod_left (x % key.m), Int.emod_emod_of_dvd _ hP, ← jacobiSym.mod_left]
+  have hr2 : J(r | P) * J(r | P) = 1 := by
+    have := jacobiSym.sq_one hr
+    rwa [pow_two] at this
+  have hzz : J((r * r % key.m) * z % key.m | P) = J(z | P) := by
+    rw [red, jacobiSym.mul_left, red, jacobiSym.mul_left, hr2, one_mul]
+  unfold maskValue
+  cases hb : lowBit b
+  · simp only [Bool.false_eq_true, if_false]
+    rw [hzz]; simp
+  · simp only [if_true]
+    rw [red, jacobiSym.mul_left, hzz]
+
+theorem gcd_of_gcd_mul_left {z a b : Int} (h : Int.gcd z (a * b) = 1) : Int.gcd z a = 1 := by
+  rw [← Int.isCoprime_iff_gcd_eq_one] at h ⊢
+  exact (IsCoprime.mul_right_iff.mp h).1
+
+theorem gcd_of_gcd_mul_right {z a b : Int} (h : Int.gcd z (a * b) = 1) : Int.gcd z b = 1 := by
+  rw [← Int.isCoprime_iff_gcd_eq_one] at h ⊢
+  exact (IsCoprime.mul_right_iff.mp h).2
+
+theorem gcd_mul_of_gcd {z a b : Int} (h1 : Int.gcd z a = 1) (h2 : Int.gcd z b = 1) :
+    Int.gcd z (a * b) = 1 := by
+  rw [← Int.isCoprime_iff_gcd_eq_one] at h1 h2 ⊢
+  exact IsCoprime.mul_right h1 h2
 
 /-- masking one value with a unit `r` changes its quadratic character (modulo both primes)
     exactly when the bit `b` is set -/
@@ -57,7 +277,349 @@ theorem maskValue_qrmn (k : SecKey) (hk : KeyOk k) (z r b : Int)
     let zz := maskValue k.pub z r b
     Int.gcd zz k.pub.m = 1 ∧ jacobi zz k.p.natAbs = jacobi zz k.q.natAbs ∧
     (qrmn zz k.p k.q = (qrmn z k.p k.q != lowBit b)) := by
-  sorry
+  intro zz
+  have hpc : ((k.p.natAbs : Nat) : Int) = k.p := Int.natAbs_of_nonneg (le_of_lt hk.p_pos)
+  have hqc : ((k.q.natAbs : Nat) : Int) = k.q := Int.natAbs_of_nonneg (le_of_lt hk.q_pos)
+  have hpo : k.p.natAbs % 2 = 1 := by have := hk.p_odd; omega
+  have hqo : k.q.natAbs % 2 = 1 := by have := hk.q_odd; omega
+  have hpd : ((k.p.natAbs : Nat) : Int) ∣ k.pub.m := by rw [hpc, hk.m_eq]; exact dvd_mul_right _ _
+  have hqd : ((k.q.natAbs : Nat) : Int) ∣ k.pub.m := by rw [hqc, hk.m_eq]; exact dvd_mul_left _ _
+  rw [hk.m_eq] at hz hr
+  have hzp : Int.gcd z (k.p.natAbs : Nat) = 1 := by rw [hpc]; exact gcd_of_gcd_mul_left hz
+  have hzq : Int.gcd z (k.q.natAbs : Nat) = 1 := by rw [hqc]; exact gcd_of_gcd_mul_right hz
+  have hrp : Int.gcd r (k.p.natAbs : Nat) = 1 := by rw [hpc]; exact gcd_of_gcd_mul_left hr
+  have hrq : Int.gcd r (k.q.natAbs : Nat) = 1 := by rw [hqc]; exact gcd_of_gcd_mul_right hr
+  have hyp := hk.y_nqr_p
+  have hyq := hk.y_nqr_q
+  rw [jacobi_eq_jacobiSym _ _ hpo] at hyp
+  rw [jacobi_eq_jacobiSym _ _ hqo] at hyq
+  have h1 := jacobiSym_maskValue k.pub _ hpd z r b hrp
+  have h2 := jacobiSym_maskValue k.pub _ hqd z r b hrq
+  rw [hyp] at h1
+  rw [hyq] at h2
+  rw [jacobi_eq_jacobiSym _ _ hpo, jacobi_eq_jacobiSym _ _ hqo] at hzc
+  unfold qrmn
+  simp only [jacobi_eq_jacobiSym _ _ hpo, jacobi_eq_jacobiSym _ _ hqo]
+  change Int.gcd zz _ = 1 ∧ J(zz | _) = J(zz | _) ∧ _
+  rw [h1, h2, ← hzc]
+  have hne : ∀ s : Int, (s = 1 ∨ s = -1) → s * (if lowBit b = true then (-1 : Int) else 1) ≠ 0 := by
+    intro s hs
+    rcases hs with rfl | rfl <;> cases lowBit b <;> simp
+  have hs := jacobiSym.eq_one_or_neg_one hzp
+  refine ⟨?_, rfl, ?_⟩
+  · rw [hk.m_eq]
+    apply gcd_mul_of_gcd
+    · rw [← hpc]
+      by_contra hc
+      have := (jacobiSym.eq_zero_iff (a := zz) (b := k.p.natAbs)).mpr ⟨by omega, hc⟩
+      rw [h1] at this
+      exact hne _ hs this
+    · rw [← hqc]
+      by_contra hc
+      have := (jacobiSym.eq_zero_iff (a := zz) (b := k.q.natAbs)).mpr ⟨by omega, hc⟩
+      rw [h2, ← hzc] at this
+      exact hne _ hs this
+  · rcases hs with hs | hs <;> rw [hs] <;> cases lowBit b <;> simp
+
+/-! ### the card invariant -/
+
+/-- entry `(i,j)` of a card, total -/
+def entry (c : Card) (i j : Nat) : Int := (c.z.getD i []).getD j 0
+
+/-- key of player `i`, total -/
+def kAt (keys : List SecKey) (i : Nat) : SecKey := keys.getD i ⟨⟨0, 0⟩, 0, 0⟩
+
+theorem kAt_getElem? (keys : List SecKey) (i : Nat) (hi : i < keys.length) :
+    keys[i]? = some (kAt keys i) := by
+  simp [kAt, List.getD, hi]
+
+theorem kAt_eq_getElem (keys : List SecKey) (i : Nat) (hi : i < keys.length) :
+    kAt keys i = keys[i] := by
+  simp [kAt, List.getD, hi]
+
+theorem kAt_mem (keys : List SecKey) (i : Nat) (hi : i < keys.length) : kAt keys i ∈ keys := by
+  rw [kAt_eq_getElem keys i hi]; exact List.getElem_mem hi
+
+/-- the bit player `i` reads off entry `(i,j)` -/
+def bitOf (keys : List SecKey) (c : Card) (j i : Nat) : Bool :=
+  !qrmn (entry c i j) (kAt keys i).p (kAt keys i).q
+
+def colXor (keys : List SecKey) (c : Card) (j : Nat) : Bool :=
+  xorBits ((List.range keys.length).map (bitOf keys c j))
+
+structure CardOk (keys : List SecKey) (w : Nat) (c : Card) : Prop where
+  rows : c.z.length = keys.length
+  cols : ∀ row ∈ c.z, row.length = w
+  ok : ∀ i, i < keys.length → ∀ j, j < w →
+    Int.gcd (entry c i j) (kAt keys i).pub.m = 1 ∧
+    jacobi (entry c i j) (kAt keys i).p.natAbs = jacobi (entry c i j) (kAt keys i).q.natAbs
+
+theorem mapM_except_ok {α β ε : Type} (f : α → Except ε β) (g : α → β) (l : List α)
+    (h : ∀ a ∈ l, f a = .ok (g a)) : l.mapM f = .ok (l.map g) := by
+  induction l with
+  | nil => rfl
+  | cons a l ih =>
+    rw [List.mapM_cons, h a (by simp), ih (fun x hx => h x (by simp [hx]))]
+    rfl
+
+theorem getD_getElem? {α : Type} (l : List α) (i : Nat) (d : α) (hi : i < l.length) :
+    l[i]? = some (l.getD i d) := by
+  simp [List.getD, hi]
+
+theorem getD_mem {α : Type} (l : List α) (i : Nat) (d : α) (hi : i < l.length) :
+    l.getD i d ∈ l := by
+  have : l.getD i d = l[i] := by simp [List.getD, hi]
+  rw [this]; exact List.getElem_mem hi
+
+theorem getD_map' {α β : Type} (l : List α) (f : α → β) (j : Nat) (d : α) (d' : β)
+    (h : j < l.length) : (l.map f).getD j d' = f (l.getD j d) := by
+  simp [List.getD, h]
+
+theorem map_eq_map_range_getD {α β : Type} (l : List α) (F : α → β) (d : α) :
+    l.map F = (List.range l.length).map fun i => F (l.getD i d) := by
+  apply List.ext_getElem
+  · simp
+  · intro i h1 h2
+    simp at h1
+    simp [List.getD, h1]
+
+/-- the masked card, as a total expression -/
+def maskedZ (keys : List SecKey) (w : Nat) (c : Card) (cs : CardSecret) : Matrix :=
+  (List.range keys.length).map fun i => (List.range w).map fun j =>
+    maskValue (kAt keys i).pub (entry c i j) ((cs.r.getD i []).getD j 0) ((cs.b.getD i []).getD j 0)
+
+theorem maskCard_ok (keys : List SecKey) (w : Nat) (c : Card) (cs : CardSecret)
+    (hc : CardOk keys w c) (hs : SecretOk keys w cs) :
+    maskCard (keys.map (·.pub)) c cs = .ok ⟨maskedZ keys w c cs⟩ := by
+  unfold maskCard
+  have h1 : ¬ (c.z.length ≠ (keys.map (·.pub)).length ∨ cs.r.length ≠ c.z.length ∨
+      cs.b.length ≠ c.z.length) := by
+    rw [List.length_map, hc.rows, hs.r_rows, hs.b_rows]; simp
+  rw [if_neg h1]
+  simp only []
+  rw [mapM_except_ok _ (fun i => (List.range w).map fun j =>
+    maskValue (kAt keys i).pub (entry c i j) ((cs.r.getD i []).getD j 0)
+      ((cs.b.getD i []).getD j 0))]
+  · rw [hc.rows]; rfl
+  · intro k hk
+    rw [List.mem_range, hc.rows] at hk
+    have e1 : (keys.map (·.pub))[k]? = some (kAt keys k).pub := by
+      rw [List.getElem?_map, kAt_getElem? keys k hk]; rfl
+    have e2 := getD_getElem? c.z k [] (by rw [hc.rows]; exact hk)
+    have e3 := getD_getElem? cs.r k [] (by rw [hs.r_rows]; exact hk)
+    have e4 := getD_getElem? cs.b k [] (by rw [hs.b_rows]; exact hk)
+    have l2 := hc.cols _ (getD_mem c.z k [] (by rw [hc.rows]; exact hk))
+    have l3 := hs.r_cols _ (getD_mem cs.r k [] (by rw [hs.r_rows]; exact hk))
+    have l4 := hs.b_cols _ (getD_mem cs.b k [] (by rw [hs.b_rows]; exact hk))
+    simp only [e1, e2, e3, e4, l2, l3, l4, ne_eq, not_true_eq_false, or_self, if_false]
+    rfl
+
+theorem entry_maskedZ (keys : List SecKey) (w : Nat) (c : Card) (cs : CardSecret)
+    (i j : Nat) (hi : i < keys.length) (hj : j < w) :
+    entry ⟨maskedZ keys w c cs⟩ i j =
+      maskValue (kAt keys i).pub (entry c i j) ((cs.r.getD i []).getD j 0)
+        ((cs.b.getD i []).getD j 0) := by
+  unfold entry maskedZ
+  rw [getD_map_range _ _ _ _ hi, getD_map_range _ _ _ _ hj]
+  rfl
+
+theorem maskedZ_step (keys : List SecKey) (hkeys : ∀ k ∈ keys, KeyOk k) (w : Nat) (c : Card)
+    (cs : CardSecret) (hc : CardOk keys w c) (hs : SecretOk keys w cs) :
+    CardOk keys w ⟨maskedZ keys w c cs⟩ ∧
+      ∀ j, j < w → colXor keys ⟨maskedZ keys w c cs⟩ j = colXor keys c j := by
+  have key : ∀ i, i < keys.length → ∀ j, j < w →
+      Int.gcd (entry ⟨maskedZ keys w c cs⟩ i j) (kAt keys i).pub.m = 1 ∧
+      jacobi (entry ⟨maskedZ keys w c cs⟩ i j) (kAt keys i).p.natAbs =
+        jacobi (entry ⟨maskedZ keys w c cs⟩ i j) (kAt keys i).q.natAbs ∧
+      bitOf keys ⟨maskedZ keys w c cs⟩ j i =
+        (bitOf keys c j i != lowBit ((cs.b.getD i []).getD j 0)) := by
+    intro i hi j hj
+    rw [bitOf, entry_maskedZ keys w c cs i j hi hj]
+    obtain ⟨hz, hzc⟩ := hc.ok i hi j hj
+    have hr : Int.gcd ((cs.r.getD i []).getD j 0) (kAt keys i).pub.m = 1 := by
+      rw [kAt_eq_getElem keys i hi]
+      have hrow := getD_getElem? cs.r i [] (by rw [hs.r_rows]; exact hi)
+      apply hs.r_unit i hi _ hrow
+      apply getD_mem
+      rw [hs.r_cols _ (getD_mem cs.r i [] (by rw [hs.r_rows]; exact hi))]
+      exact hj
+    obtain ⟨g1, g2, g3⟩ := maskValue_qrmn (kAt keys i) (hkeys _ (kAt_mem keys i hi))
+      (entry c i j) ((cs.r.getD i []).getD j 0) ((cs.b.getD i []).getD j 0) hz hr hzc
+    refine ⟨g1, g2, ?_⟩
+    rw [g3, bitOf]
+    cases qrmn (entry c i j) (kAt keys i).p (kAt keys i).q <;>
+      cases lowBit ((cs.b.getD i []).getD j 0) <;> rfl
+  refine ⟨⟨?_, ?_, ?_⟩, ?_⟩
+  · simp [maskedZ]
+  · intro row hrow
+    simp only [maskedZ, List.mem_map] at hrow
+    obtain ⟨i, _, rfl⟩ := hrow
+    simp
+  · intro i hi j hj
+    exact ⟨(key i hi j hj).1, (key i hi j hj).2.1⟩
+  · intro j hj
+    unfold colXor
+    have : (List.range keys.length).map (bitOf keys ⟨maskedZ keys w c cs⟩ j) =
+        (List.range keys.length).map fun i =>
+          (bitOf keys c j i != lowBit ((cs.b.getD i []).getD j 0)) := by
+      apply List.map_congr_left
+      intro i hi
+      exact (key i (List.mem_range.mp hi) j hj).2.2
+    rw [this, xorBits_map_xor]
+    have hb := hs.col_xor j hj
+    rw [map_eq_map_range_getD cs.b _ [], hs.b_rows] at hb
+    rw [hb]; simp
+
+theorem foldlM_maskCard (keys : List SecKey) (hkeys : ∀ k ∈ keys, KeyOk k) (w : Nat)
+    (secrets : List CardSecret) (hs : ∀ cs ∈ secrets, SecretOk keys w cs) :
+    ∀ c, CardOk keys w c →
+      ∃ c', secrets.foldlM (fun c cs => maskCard (keys.map (·.pub)) c cs) c = .ok c' ∧
+        CardOk keys w c' ∧ ∀ j, j < w → colXor keys c' j = colXor keys c j := by
+  induction secrets with
+  | nil => intro c hc; exact ⟨c, rfl, hc, fun _ _ => rfl⟩
+  | cons cs rest ih =>
+    intro c hc
+    have hcs := hs cs (by simp)
+    obtain ⟨h1, h2⟩ := maskedZ_step keys hkeys w c cs hc hcs
+    obtain ⟨c', e, ok', hx⟩ := ih (fun x hx => hs x (by simp [hx])) _ h1
+    refine ⟨c', ?_, ok', fun j hj => (hx j hj).trans (h2 j hj)⟩
+    rw [List.foldlM_cons, maskCard_ok keys w c cs hc hcs]
+    exact e
+
+/-! ### recomposing the type -/
+
+theorem foldl_bits (g : Nat → Bool) (T : Nat) : ∀ w,
+    (∀ j, j < w → g j = decide ((T / 2 ^ j) % 2 = 1)) →
+    (List.range w).foldl (fun acc j => if g j then acc + 2 ^ j else acc) 0 = T % 2 ^ w := by
+  intro w
+  induction w with
+  | zero => intro _; simp [Nat.mod_one]
+  | succ w ih =>
+    intro h
+    rw [List.range_succ, List.foldl_append, ih (fun j hj => h j (by omega)), List.foldl_cons,
+      List.foldl_nil, h w (by omega), Nat.mod_pow_succ]
+    have : T / 2 ^ w % 2 = 0 ∨ T / 2 ^ w % 2 = 1 := by omega
+    rcases this with h0 | h1
+    · simp [h0]
+    · simp [h1]
+
+theorem openCard_eq (keys : List SecKey) (w T : Nat) (hT : T < 2 ^ w) (c : Card)
+    (hc : CardOk keys w c)
+    (hx : ∀ j, j < w → colXor keys c j = decide ((T / 2 ^ j) % 2 = 1)) :
+    openCard c keys w = T := by
+  unfold openCard typeOfBits
+  rw [foldl_bits _ T w, Nat.mod_eq_of_lt hT]
+  intro j hj
+  rw [← hx j hj, colXor, List.map_map]
+  congr 1
+  apply List.map_congr_left
+  intro i hi
+  have hi' := List.mem_range.mp hi
+  have hlen : j < (c.z.getD i []).length := by
+    rw [hc.cols _ (getD_mem c.z i [] (by rw [hc.rows]; exact hi'))]; exact hj
+  simp only [Function.comp, kAt_getElem? keys i hi', selfBits, bitOf, entry]
+  have : ((c.z.getD i []).map fun z =>
+      if qrmn z (kAt keys i).p (kAt keys i).q then (0 : Int) else 1).getD j 0 =
+      if qrmn ((c.z.getD i []).getD j 0) (kAt keys i).p (kAt keys i).q then (0 : Int) else 1 :=
+    getD_map' _ _ _ _ _ hlen
+  rw [this]
+  cases qrmn ((c.z.getD i []).getD j 0) (kAt keys i).p (kAt keys i).q <;> simp [lowBit]
+
+/-! ### the open card -/
+
+theorem jacobi_one (n : Nat) (hn : n % 2 = 1) : jacobi 1 n = 1 := by
+  rw [jacobi_eq_jacobiSym _ _ hn, jacobiSym.one_left]
+
+theorem KeyOk.p_odd' {k : SecKey} (hk : KeyOk k) : k.p.natAbs % 2 = 1 := by
+  have := hk.p_odd; omega
+
+theorem KeyOk.q_odd' {k : SecKey} (hk : KeyOk k) : k.q.natAbs % 2 = 1 := by
+  have := hk.q_odd; omega
+
+theorem KeyOk.gcd_y {k : SecKey} (hk : KeyOk k) : Int.gcd k.pub.y k.pub.m = 1 := by
+  have hpc : ((k.p.natAbs : Nat) : Int) = k.p := Int.natAbs_of_nonneg (le_of_lt hk.p_pos)
+  have hqc : ((k.q.natAbs : Nat) : Int) = k.q := Int.natAbs_of_nonneg (le_of_lt hk.q_pos)
+  have hyp := hk.y_nqr_p
+  have hyq := hk.y_nqr_q
+  rw [jacobi_eq_jacobiSym _ _ hk.p_odd'] at hyp
+  rw [jacobi_eq_jacobiSym _ _ hk.q_odd'] at hyq
+  rw [hk.m_eq]
+  apply gcd_mul_of_gcd
+  · rw [← hpc]
+    by_contra hc
+    have := (jacobiSym.eq_zero_iff (a := k.pub.y) (b := k.p.natAbs)).mpr
+      ⟨by have := hk.p_odd'; omega, hc⟩
+    omega
+  · rw [← hqc]
+    by_contra hc
+    have := (jacobiSym.eq_zero_iff (a := k.pub.y) (b := k.q.natAbs)).mpr
+      ⟨by have := hk.q_odd'; omega, hc⟩
+    omega
+
+theorem createOpenCard_ok (keys : List SecKey) (hne : keys ≠ []) (hkeys : ∀ k ∈ keys, KeyOk k)
+    (w T : Nat) :
+    CardOk keys w (createOpenCard (keys.map (·.pub)) w T) ∧
+      ∀ j, j < w → colXor keys (createOpenCard (keys.map (·.pub)) w T) j =
+        decide ((T / 2 ^ j) % 2 = 1) := by
+  obtain ⟨k0, rest, rfl⟩ := List.exists_cons_of_ne_nil hne
+  have hk0 := hkeys k0 (by simp)
+  have e0 : ∀ j, j < w → entry (createOpenCard ((k0 :: rest).map (·.pub)) w T) 0 j =
+      if (T / 2 ^ j) % 2 = 1 then k0.pub.y else 1 := by
+    intro j hj
+    simp only [entry, createOpenCard, List.map_cons]
+    rw [List.getD_cons_zero, getD_map_range _ _ _ _ hj]
+  have e1 : ∀ i, i + 1 < (k0 :: rest).length → ∀ j, j < w →
+      entry (createOpenCard ((k0 :: rest).map (·.pub)) w T) (i + 1) j = 1 := by
+    intro i hi j hj
+    simp only [List.length_cons, Nat.add_lt_add_iff_right] at hi
+    simp only [entry, createOpenCard, List.map_cons, List.getD_cons_succ, List.map_map]
+    simp [List.getD, hi, hj]
+  have hk00 : kAt (k0 :: rest) 0 = k0 := rfl
+  refine ⟨⟨?_, ?_, ?_⟩, ?_⟩
+  · simp [createOpenCard]
+  · intro row hrow
+    simp only [createOpenCard, List.map_cons, List.mem_cons, List.mem_map] at hrow
+    rcases hrow with rfl | ⟨_, _, rfl⟩ <;> simp
+  · intro i hi j hj
+    cases i with
+    | zero =>
+      rw [e0 j hj, hk00]
+      by_cases hb : (T / 2 ^ j) % 2 = 1
+      · simp only [hb, if_true]
+        exact ⟨hk0.gcd_y, by rw [hk0.y_nqr_p, hk0.y_nqr_q]⟩
+      · simp only [hb, if_false]
+        exact ⟨by simp, by rw [jacobi_one _ hk0.p_odd', jacobi_one _ hk0.q_odd']⟩
+    | succ i =>
+      rw [e1 i hi j hj]
+      have hk := hkeys _ (kAt_mem _ _ hi)
+      exact ⟨by simp, by rw [jacobi_one _ hk.p_odd', jacobi_one _ hk.q_odd']⟩
+  · intro j hj
+    unfold colXor
+    have : (List.range (k0 :: rest).length).map
+        (bitOf (k0 :: rest) (createOpenCard ((k0 :: rest).map (·.pub)) w T) j) =
+        (List.range (k0 :: rest).length).map fun i =>
+          if i = 0 then decide ((T / 2 ^ j) % 2 = 1) else false := by
+      apply List.map_congr_left
+      intro i hi
+      have hi' := List.mem_range.mp hi
+      cases i with
+      | zero =>
+        simp only [bitOf, if_true]
+        rw [e0 j hj, hk00]
+        unfold qrmn
+        by_cases hb : (T / 2 ^ j) % 2 = 1
+        · simp only [hb, if_true]
+          rw [hk0.y_nqr_p, hk0.y_nqr_q]; simp
+        · simp only [hb, if_false]
+          rw [jacobi_one _ hk0.p_odd', jacobi_one _ hk0.q_odd']; simp
+      | succ i =>
+        have hk := hkeys _ (kAt_mem _ _ hi')
+        simp only [bitOf]
+        rw [e1 i hi' j hj]
+        unfold qrmn
+        rw [jacobi_one _ hk.p_odd', jacobi_one _ hk.q_odd']; simp
+    rw [this, xorBits_map_single]
+    simp
 
 /-- **C01**, second encoding: for any number of players, type bits, type, and any chain of
     maskings with fitting secrets, opening with everybody's bits returns the type -/
@@ -67,6 +629,7 @@ theorem tmcg_open_correct (keys : List SecKey) (hne : keys ≠ []) (hkeys : ∀ 
     ∃ c, secrets.foldlM (fun c cs => maskCard (keys.map (·.pub)) c cs)
         (createOpenCard (keys.map (·.pub)) w T) = .ok c ∧
       openCard c keys w = T := by
-  sorry
-
+  obtain ⟨h0, hx0⟩ := createOpenCard_ok keys hne hkeys w T
+  obtain ⟨c, e, hc, hx⟩ := foldlM_maskCard keys hkeys w secrets hs _ h0
+  exact ⟨c, e, openCard_eq keys w T hT c hc fun j hj => (hx j hj).trans (hx0 j hj)⟩
 end Tmcg.TmcgOpen
